@@ -47,6 +47,14 @@ func RDB(path string) (DB, error) {
 		return nil, err
 	}
 	defer db.CloseDatabase()
+	return Handle(db)
+}
+
+// Handle dumps through an open low-level handle (what that handle itself sees, including writes
+// that are still in its memtable only).
+func Handle(db interface {
+	CreateIterator(*rocksdb.ReadOptions) *rocksdb.Iterator
+}) (DB, error) {
 	ro := rocksdb.NewDefaultReadOptions()
 	defer ro.FreeReadOptions()
 	it := db.CreateIterator(ro)
